@@ -132,7 +132,7 @@ def gen_toy(c):
 def gen_real(c):
     mcfg = R.gen_model_cfg(c)
     R.add_extra_contribs(c, mcfg, p=0.25)
-    mcfg['nlayers'] = c.randint(3, 7)
+    mcfg['nlayers'] = c.randint(2, 7)
     mcfg['opac']['ngrid'] = c.randint(12, 30)
     wide = c.random() < 0.6 and len(mcfg['molecules']) >= 1
     fit = S.gen_fit(c, mcfg, nmax=4, rich=True)
